@@ -335,6 +335,187 @@ def make_pool(rng):
     return pool, pair, deep, fam, hidden
 
 
+# ------------------------------------------------------------------------------------------------ foreign roots
+# Numbers whose defining polynomial is REDUCIBLE and has an integer / dyadic / rational root w that is NOT the number:
+# (x - z) g(x) and (c x - n) g(x) with g irreducible, the number being a root of g.  Root isolation only makes polynomials
+# square-free and the resultants of the arithmetic are reducible too, so libpoly holds such numbers all the time; every
+# query that looks at the polynomial (comparison with an integer / dyadic / rational, sgn, hash) has to look at the
+# isolating interval FIRST - "w is a zero of f" says nothing about the number.  The answer must also be the same before and
+# after the polynomial is replaced by a factor (comparison with the same number behind g alone: reduction to the gcd).
+
+IRREDUCIBLE = [[-2, 0, 1], [-3, 0, 1], [-5, 0, 1], [-7, 0, 1], [-10, 0, 1], [-1, -1, 1], [-1, 2, 1], [-1, 0, 2], [1, -4, 1],
+               [-1, -3, 1], [-2, 0, 0, 1], [-3, 0, 0, 1], [1, -3, 0, 1], [-1, -1, 0, 1], [-2, 0, 0, 0, 1]]
+BATTERY_Q = [Fraction(-7, 5), Fraction(1, 3), Fraction(3, 2)]      # harness/c09.c BATQ: compared with EVERY slot after EVERY step
+
+
+def pmul(p, q):
+    r = [0] * (len(p) + len(q) - 1)
+    for i, a in enumerate(p):
+        for j, b in enumerate(q):
+            r[i + j] += a * b
+    return r
+
+
+def q_tok(w):
+    return "%d/%d" % (w.numerator, w.denominator)
+
+
+def is_dyadic(w):
+    return w.denominator & (w.denominator - 1) == 0
+
+
+def plain_value(w):
+    """the rational w as a plain z: / d: / q: pool value"""
+    if w.denominator == 1:
+        return ("z:%d" % w.numerator, float(w), 1)
+    if is_dyadic(w):
+        return ("d:" + frac_tok(w), float(w), 1)
+    return ("q:" + q_tok(w), float(w), 1)
+
+
+def foreign_root_candidates(rng, v):
+    """rationals to be the OTHER root of the defining polynomial of the number v (a float): integers at and next to
+    floor / ceiling, far integers, dyadics (mid point of the unit interval of v: the first bisection point; neighbours at
+    depth 2..4), rationals close to v, and the three rationals the battery compares every slot with"""
+    fl = math.floor(v)
+    k = rng.random()
+    if k < 0.40:
+        w = Fraction(rng.choice([fl, fl + 1, fl, fl + 1, fl - 1, fl + 2, 3, -2, 7, -fl, -fl - 1, rng.randint(-9, 9)]))
+    elif k < 0.62:
+        j = rng.choice([1, 1, 2, 3, 4])
+        w = rng.choice([Fraction(2 * fl + 1, 2), Fraction(2 * fl + 1, 2),
+                        Fraction(math.floor(v * 2 ** j), 2 ** j), Fraction(math.floor(v * 2 ** j) + 1, 2 ** j),
+                        Fraction(math.floor(v * 2 ** j) - 1, 2 ** j), Fraction(rng.randint(-20, 20) | 1, 2 ** j)])
+    elif k < 0.80:
+        w = rng.choice(BATTERY_Q)
+    else:
+        w = rng.choice([Fraction(v).limit_denominator(rng.choice([3, 5, 7, 12])),
+                        Fraction(math.floor(v * 3) + rng.choice([0, 1]), 3), Fraction(rng.randint(-20, 20), rng.choice([3, 5, 7]))])
+    return w
+
+
+def foreign_root_number(rng, g=None, kroot=None):
+    """((token, float, degree), w, (g, index of the number among the real roots of g)): a root v of the irreducible g held
+    as a root of (c x - n) g(x), w = n/c != 0.  Either an `r:` token (k-th root of the product: through
+    lp_upolynomial_roots_isolate) or an `a:` token (the product with an isolating interval given as a dyadic cell)"""
+    for _ in range(200):
+        gg = g if g is not None else rng.choice(IRREDUCIBLE)
+        rs = real_roots(gg)
+        if not rs:
+            continue
+        k0 = kroot if kroot is not None else rng.randrange(len(rs))
+        v = rs[k0]
+        w = foreign_root_candidates(rng, v)
+        if w == 0 or abs(float(w) - v) < 1e-7 or any(abs(float(w) - r) < 1e-7 for r in rs):
+            continue
+        cs = pmul([-w.numerator, w.denominator], gg)
+        allr = sorted(rs + [float(w)])
+        if rng.random() < 0.5:
+            return ("r:%s:%d" % (",".join(map(str, cs)), allr.index(v)), v, len(cs) - 1), w, (gg, k0)
+        j = rng.choice([1, 2, 2, 3, 4, 5])
+        lo = Fraction(math.floor(v * 2 ** j), 2 ** j)
+        hi = lo + Fraction(1, 2 ** j)
+        if not (float(lo) < v < float(hi)) or lo <= w <= hi or any(float(lo) - 1e-9 <= r <= float(hi) + 1e-9 for r in rs if r != v):
+            continue
+        return ("a:%s:%s:%s" % (",".join(map(str, cs)), frac_tok(lo), frac_tok(hi)), v, len(cs) - 1), w, (gg, k0)
+    return ("a:6,-2,-3,1:1/0:3/1", math.sqrt(2), 3), Fraction(3), ([-2, 0, 1], 1)
+
+
+def foreign_queries(rng, i, v, w, comp=None, scale=1):
+    """queries of slot i (value v, foreign root w of its polynomial) AT w and next to it; comp = a slot that holds w as a
+    plain value; scale = -1 when slot i holds the negated number (foreign root -w)"""
+    if scale == -1:
+        v, w = -v, -w
+    ops = []
+    if w.denominator == 1:
+        ops.append("cz:%d:%d" % (i, w.numerator))
+    elif is_dyadic(w):
+        ops.append("cd:%d:%s" % (i, frac_tok(w)))
+    else:
+        ops.append("cq:%d:%s" % (i, q_tok(w)))
+    more = ["cq:%d:%s" % (i, q_tok(w)), "fl:%d" % i, "ce:%d" % i, "ii:%d" % i, "sg:%d" % i, "ra:%d" % i, "ra:%d" % i,
+            "cz:%d:%d" % (i, math.floor(w)), "cz:%d:%d" % (i, math.floor(w) + 1), "cz:%d:%d" % (i, math.floor(v)),
+            "cz:%d:%d" % (i, math.floor(v) + 1), "cz:%d:%d" % (i, math.ceil(w) - 1),
+            "cq:%d:%s" % (i, q_tok(w + Fraction(rng.choice([-1, 1]), rng.choice([2, 3, 10 ** 3, 10 ** 9])))),
+            "ha:%d:%d" % (i, rng.choice([0, 2, 6, 10]))]
+    if is_dyadic(w):
+        more += ["cd:%d:%s" % (i, frac_tok(w)), "cd:%d:%s" % (i, frac_tok(w)),
+                 "cd:%d:%s" % (i, frac_tok(w + Fraction(rng.choice([-1, 1]), 2 ** rng.choice([1, 3, 8, 30]))))]
+    if comp is not None:
+        more += ["cmp:%d:%d" % (i, comp), "cmp:%d:%d" % (comp, i), "cmp:%d:%d" % (i, comp)]
+    rng.shuffle(more)
+    ops += more[:rng.choice([3, 4, 5])]
+    rng.shuffle(ops)
+    return ops
+
+
+def make_foreign_case(rng):
+    """a case aimed at the foreign roots: pool = X (root of (c x - n) g), the same number behind g alone or behind another
+    product (its comparison with X reduces the polynomials to the gcd), the foreign root w as a plain value, a second number Y
+    of the class, -w or a small integer (arithmetic that moves the foreign root onto 0 / keeps it), a scratch slot;
+    history = queries at w / change of the representation / the same queries again, for X, for Y, for copies and negations"""
+    X, wx, (g, k0) = foreign_root_number(rng)
+    k = rng.random()
+    if k < 0.5:
+        P = ("r:%s:%d" % (",".join(map(str, g)), k0), X[1], len(g) - 1)            # the same number, irreducible polynomial
+    elif k < 0.8:
+        P = foreign_root_number(rng, g, k0)[0]                                     # the same number, another foreign root
+    else:
+        P = foreign_root_number(rng, g)[0]                                         # usually another root of the same g
+    Y, wy, _ = foreign_root_number(rng)
+    W = plain_value(wx)
+    eq = rng.choice([-wx, -wx, wy, Fraction(1), -wy])
+    E = plain_value(eq)
+    F = random_rational(rng) if rng.random() < 0.5 else FIXED[rng.choice(["sqrt2", "sqrt3", "phi", "alg1/3", "sec3/8"])]
+    pool = [X, P, W, Y, E, F]
+    perm = list(range(NS))
+    rng.shuffle(perm)
+    pool = [pool[k] for k in perm]
+    x, p, wslot, y, e, f = (perm.index(k) for k in range(NS))
+    lin = lambda s, w_: "%d*x%d^1+%d" % (w_.denominator, s, -w_.numerator)       # vanishes at the FOREIGN root only
+    polys = [(lin(x, wx), [x], False), (lin(y, wy), [y], False),
+             rng.choice([("1*x%d^1+-1*x%d^1" % (min(x, wslot), max(x, wslot)), [x, wslot], False),
+                         ("1*x%d^1+-1*x%d^1" % (min(x, p), max(x, p)), [x, p], False),
+                         ("1*x6^2+-1*x%d^1" % x, [x], True),
+                         ("%d*x%d^1*x6^1+%d*x6^1+1" % (wx.denominator, x, -wx.numerator), [x], True)])]
+    val = [q[1] for q in pool]
+    ops = foreign_queries(rng, x, val[x], wx, wslot)
+    changes = ["cmp", "cmp", "rf", "cp", "neg", "add", "poly", "db", "inv"]
+    rng.shuffle(changes)
+    for ch in changes[:rng.choice([3, 4, 5])]:
+        t, tv, tw = (x, val[x], wx) if rng.random() < 0.65 else (y, val[y], wy)
+        if ch == "cmp":
+            ops += [rng.choice(["cmp:%d:%d" % (x, p), "cmp:%d:%d" % (p, x)])]
+            ops += foreign_queries(rng, x, val[x], wx, wslot) + foreign_queries(rng, p, val[p], wx, wslot)[:2]
+        elif ch == "rf":
+            ops += ["rf:%d:%d" % (t, rng.choice([1, 2, 5, 12]))] + foreign_queries(rng, t, tv, tw, wslot if t == x else None)
+        elif ch == "cp":
+            ops += ["cp:%d:%d" % (f, t)] + foreign_queries(rng, f, tv, tw, wslot if t == x else None) + ["cmp:%d:%d" % (f, t)]
+            pool[f] = (pool[f][0], tv, pool[t][2])
+        elif ch == "neg":
+            ops += ["neg:%d:%d" % (f, t)] + foreign_queries(rng, f, tv, tw, None, -1)
+            pool[f] = (pool[f][0], -tv, pool[t][2])
+        elif ch == "add":
+            # X + (-w): the foreign root moves onto 0, where lp_value_sgn asks; X + e in general
+            ops += ["add:%d:%d:%d" % (f, x, e), "sg:%d" % f, "cz:%d:0" % f, "fl:%d" % f,
+                    "cq:%d:%s" % (f, q_tok(wx + eq)), "ra:%d" % f]
+            pool[f] = (pool[f][0], val[x] + pool[e][1], pool[x][2])
+        elif ch == "inv":
+            ops += ["inv:%d:%d" % (f, t), "cq:%d:%s" % (f, q_tok(1 / tw)), "ra:%d" % f, "fl:%d" % f]
+            pool[f] = (pool[f][0], 1 / tv, pool[t][2])
+        elif ch == "poly":
+            ops += [rng.choice(["ps:0", "pe:0", "ps:1", "pe:1", "ps:2" if not polys[2][2] else "pr:2"])]
+            ops += foreign_queries(rng, t, tv, tw, wslot if t == x else None)
+        else:
+            ops += ["db:%d" % t] + foreign_queries(rng, t, tv, tw, wslot if t == x else None)
+    ops += foreign_queries(rng, y, val[y], wy)
+    # a short random tail over the same pool
+    ops += history(rng, pool, polys, rng.randint(6, 12), maxdeg=9)
+    mode = rng.choice("OCM")
+    return "c09 %s:%d %s %s ; %s" % (mode, approx_magnitude(), " ".join(q[0] for q in pool), " ".join(q[0] for q in polys),
+                                     " ".join(ops))
+
+
 # ------------------------------------------------------------------------------------------------ pool polynomials
 # (text, assigned variables used, uses x6)
 
@@ -595,6 +776,12 @@ def generate(rng, tier):
         r = rng.random()
         length = rng.randint(20, 50) if r < 0.5 else (rng.randint(50, 120) if r < 0.85 else rng.randint(120, 200))
         cases.append(make_case(rng, length))
+    # the foreign-root class has its own stream (derived from the run's seed without drawing from `rng`): the cases above
+    # are exactly what they were before the class existed
+    import random as _random
+    sub = _random.Random("C09-foreign-roots-%r-%s" % (rng.getstate()[1][:4], tier))
+    for k in range(12 if tier == "quick" else 100):
+        cases.append(make_foreign_case(sub))
     return cases
 
 
@@ -619,7 +806,8 @@ def nontrivial(case):
 
 
 RULE = ("seeded random histories (gen/C09.py; corpus of past failures first): 6-number pool (rational, sqrt2 family, cubic "
-        "root, secretly rational algebraic number, nearly-equal pair) + 3 polynomials, 20-200 operations; distinct = "
+        "root, secretly rational algebraic number, nearly-equal pair) + 3 polynomials, 20-200 operations; plus foreign-root "
+        "cases (numbers behind (c x - n) g queried at n/c before / after changes of the representation); distinct = "
         "distinct case line; non-trivial = at least 10 operations over a pool with an algebraic number")
 ASSUMPTIONS = ["algebraic degrees stay <= 16 (generator bound); model values are installed in one lp_assignment_t",
                "termination of the bisection loops is not proved (fuel); the reference comparison uses fuel 4000"]
